@@ -5,6 +5,7 @@ import os
 import pickle
 import sys
 
+from . import core
 from .query_replay import L
 
 
@@ -198,7 +199,10 @@ def replay_chunk(lines):
         out["n"] += 1
         key = "%s:%s" % (vec["fam"], vec["z"]["how"])
         out["per_how"][key] = out["per_how"].get(key, 0) + 1
-        obs = perform(vec)
+        try:
+            obs = core.call_with_deadline(lambda: perform(vec))
+        except core.Hang:
+            obs = {"raised": "Hang: the copy did not return within the time limit", "n": "?"}
         if not obs.get("build_failed") and same(vec, obs):
             out["same"] += 1
         elif len(out["attention"]) < 12:
